@@ -266,10 +266,10 @@ def dead_child(shape, n, chords, act, at, seed, timeout=300):
 
 def judge_dead(sc, j):
     shape, n, chords, act, at = sc
-    what = f"{shape} of {n} objects (+{chords} chords), destructor #{at} onwards {'clones' if act == 'clone' else 'drops'} its stored handles to dying members"
+    what = f"{shape} of {n} objects (+{chords} chords), destructor #{at} onwards {'clones' if act == 'clone' else 'drops' if act == 'drop' else 'overwrites an alias with clone_from of'} its stored handles to dying members"
     if j.get("error") == "timeout":
         return ("hang", "big-dead-handle-timeout", what + ": no result in time")
-    if act == "clone":
+    if act in ("clone", "clonefrom"):
         if j.get("type") == "dead-clone-returned":
             return ("abort-missing", "big-group-dead-clone-returned", what + f": Rc::clone returned in destructor #{j.get('ord')} (strong count through the new handle {j.get('strong')}); the process must abort instead")
         if j["_code"] is not None and j["_code"] >= 0:
@@ -295,7 +295,7 @@ def big_dead(tier, seed, jobs):
         for shape in ("ring", "mstar", "cliques"):
             m = n + rng.randrange(0, 64)
             chords = 2 * m if shape == "ring" else 0
-            for act in ("clone", "drop"):
+            for act in ("clone", "drop", "clonefrom"):
                 for at in (0, rng.randrange(1, m // 2), rng.randrange(m // 2, m - 1)):
                     sc.append((shape, m, chords, act, at))
     fails = None
